@@ -1,11 +1,11 @@
 #!/bin/sh
 # tools/coref_all.sh: every mechanical Colang rewrite (tools/co_refactor.py) x every quick check; prints only deviations
 cd /verif
-for p in C01 C02 C03 C04 C05 C06 C07 C08 C09 C10 C11 C12 C13 C14 C15 C16 C17 C19 C20; do ./check $p --tier quick --no-evidence > /tmp/q_$p.log 2>&1; done
+for p in C01 C02 C03 C04 C05 C06 C07 C08 C09 C10 C11 C12 C13 C14 C15 C16 C17 C18 C19 C20; do ./check $p --tier quick --no-evidence > /tmp/q_$p.log 2>&1; done
 for t in swap-if swap-if-v1 merge-if split-and rename-vars; do
   d=/tmp/co1_$t; rm -rf $d; mkdir $d; git -C /repo archive HEAD nemoguardrails docs | tar -x -C $d
   if [ $t = swap-if-v1 ]; then CO_SWAP_V1=1 python3 tools/co_refactor.py $d swap-if > /dev/null; else python3 tools/co_refactor.py $d $t > /dev/null; fi
-  for p in C01 C02 C03 C04 C05 C06 C07 C08 C09 C10 C11 C12 C13 C14 C15 C16 C17 C19 C20; do
+  for p in C01 C02 C03 C04 C05 C06 C07 C08 C09 C10 C11 C12 C13 C14 C15 C16 C17 C18 C19 C20; do
     ./check $p --tier quick --no-evidence --repo $d > /tmp/co_${t}_$p.log 2>&1; rc=$?
     k1=$(grep -c '^KNOWN-FINDING' /tmp/co_${t}_$p.log); k0=$(grep -c '^KNOWN-FINDING' /tmp/q_$p.log)
     [ $rc = 0 ] && [ $k1 = $k0 ] || echo "$t $p rc=$rc viol=$(grep -c '^VIOLATION' /tmp/co_${t}_$p.log) err=$(grep -c 'ANALYSIS-ERROR' /tmp/co_${t}_$p.log) known=$k1/$k0"
